@@ -361,6 +361,11 @@ def evalIter (m : MDP) (p : Mat) : Nat → Vec
   | 0 => mkVec m.S (fun _ => 0)
   | h+1 => let v := evalIter m p h; mkVec m.S (bellmanPi m p.get v.get)
 
+/-- h sweeps of the policy operator from the supplied start vector (warm-started PolicyEvaluation, specification side) -/
+def evalIterFrom (m : MDP) (p : Mat) (v0 : Vec) : Nat → Vec
+  | 0 => v0
+  | h+1 => let v := evalIterFrom m p v0 h; mkVec m.S (bellmanPi m p.get v.get)
+
 /-! ## decidable checkers evaluated on the implementation's own output (L3) -/
 
 def allLt (n : Nat) (p : Nat → Bool) : Bool := (List.range n).all p
